@@ -402,11 +402,10 @@ def main():
         for n in failing:
             h = byname[n]
             tapes = pb.get(n, {}).get("tapes", [])
-            # candidate tapes: failed assertions (not covers) for pass harnesses; the 'returned' cover otherwise
-            if h.kind == "never_returns":
-                cands = [t for t in tapes if t["class"] == "cover" and t["desc"] == "returned"]
-            else:
-                cands = [t for t in tapes if t["class"] != "cover"]
+            # candidate tapes: Kani prints one test per distinct input vector and labels it with the first
+            # property that produced it, so a failing assertion whose input coincides with a cover witness
+            # appears under the cover's label: try every tape, failed-assertion ones first.
+            cands = sorted(tapes, key=lambda t: t["class"] == "cover")
             seen = set()
             got_any = False
             for t in cands:
